@@ -1,5 +1,5 @@
 """C04 -- adoption, release and creation obey the ControllerRef rules."""
-from props import sync_level, COMPOSITE, DECORATOR
+from props import sync_level, all_families, COMPOSITE, DECORATOR
 from plan_own import OWN_PLAN
 import fam_conv
 
@@ -19,4 +19,4 @@ MANIFEST = dict(
 
 
 def run(scr, tier, replay_file):
-    return sync_level(scr, tier, "C04", "C04_", PLAN, replay_file)
+    return sync_level(scr, tier, "C04", "C04_", all_families(PLAN), replay_file)
